@@ -160,7 +160,11 @@ def gen(streams, tier, i):
             i_ = cfg.choice(cand)
             f = lines[i_].split("\t")
             c = 6 if f[0] == "C" else 5
-            f[c] = f[c].replace("M", cfg.choice(["=", "X"]), 1)
+            if cfg.random() < 0.6:
+                f[c] = f[c].replace("M", cfg.choice(["=", "X"]), 1)
+            else:
+                # ... or an ID tag (any printable string in GFA1) that is no GFA2 identifier
+                f = [x for x in f if not x.startswith("ID:")] + ["ID:Z:" + cfg.choice(["my link", "a b", "x y+"])]
             lines = lines[:i_] + ["\t".join(f)] + lines[i_ + 1:]
             nocp = True
             vlevel = cfg.choice([0, 1, 2, 3])
